@@ -305,6 +305,12 @@ func parseContractFile(path string, extra ...string) (*ContractFile, error) {
 			}
 			cf.Groups[fields[1]] = cur
 			continue
+		case "pool":
+			cur = &Contract{Kind: "pool", Name: fields[1], LoopInv: map[int][]*CExpr{}, LoopDec: map[int]*CExpr{},
+				Nilable: map[string]bool{}, NonNil: map[string]bool{}, Flags: map[string]string{}, Line: ln, Props: []string{"C01"}}
+			cf.ByName["pool "+fields[1]] = cur
+			cf.Order = append(cf.Order, cur)
+			continue
 		case "func", "iface", "functype":
 			rest := strings.TrimSpace(l[len(fields[0]):])
 			props := []string{}
@@ -359,6 +365,10 @@ func parseContractFile(path string, extra ...string) (*ContractFile, error) {
 			case "ensures":
 				cur.Ensures = append(cur.Ensures, ce)
 			case "invariant":
+				if loopN == 0 && cur.Kind == "pool" {
+					cur.Requires = append(cur.Requires, ce) // pool invariant over x
+					continue
+				}
 				if loopN == 0 {
 					return nil, fmt.Errorf("line %d: invariant without loop ordinal", ln)
 				}
@@ -1027,6 +1037,21 @@ func (fx *FnExec) evalCallC(x *ast.CallExpr, env *evalEnv) (cval, error) {
 		fx.withHeap(env.heap, func() {
 			dom, _, _ := fx.mapHeaps(mt)
 			r = "(and (> " + m.S + " 0) (select (select " + dom + " " + m.S + ") " + k.S + "))"
+		})
+		return boolr(r)
+	case "mapEmpty": // mapEmpty(m): m is a non-nil map without entries
+		m, err := fx.evalC(x.Args[0], env)
+		if err != nil {
+			return cval{}, err
+		}
+		mt, ok := m.T.Underlying().(*types.Map)
+		if !ok {
+			return cval{}, fmt.Errorf("mapEmpty: not a map")
+		}
+		var r string
+		fx.withHeap(env.heap, func() {
+			dom, _, l := fx.mapHeaps(mt)
+			r = "(and (> " + m.S + " 0) (= (select " + dom + " " + m.S + ") ((as const (Array " + fx.sortOf(mt.Key()) + " Bool)) false)) (= (select " + l + " " + m.S + ") 0))"
 		})
 		return boolr(r)
 	case "typeIs": // typeIs(v, "int64")
